@@ -3,6 +3,7 @@ import I18n.Driver.CheckPlurals
 import I18n.Driver.Mo
 import I18n.Driver.CFmt
 import I18n.Driver.Tags
+import I18n.Driver.Charset
 /- Line-protocol driver: `<model> <op> <args…>` per line on stdin, one canonical line per op on stdout. -/
 open I18n.Driver
 
@@ -13,6 +14,7 @@ def step (line : String) : String :=
   | "mo" :: op :: args => Mo.handle op args
   | "cfmt" :: op :: args => CFmt.handle op args
   | "tags" :: op :: args => Tags.handle op args
+  | "charset" :: op :: args => Charset.handle op args
   | _ => "bad-op"
 
 partial def loop (h : IO.FS.Stream) (out : IO.FS.Stream) : IO Unit := do
